@@ -1,7 +1,7 @@
 (** Correspondence and monitor functions for C14, evaluated by the driver's case files. *)
 From Coq Require Import List Ascii String NArith Bool.
 From Galaxy.Base Require Import Strs.
-From Galaxy.Model Require Import Netfilter PortMap.
+From Galaxy.Model Require Import Netfilter PortMap PortDaemon.
 From Galaxy.Corr Require Import CorrBase.
 Import ListNotations.
 Open Scope N_scope.
@@ -164,3 +164,58 @@ Fixpoint held_after (held : list (str * list hport)) (foreign leaked : list hpor
       held_after held' foreign' leaked' r
   end.
 Definition mon_held (steps : list (sstep * list (hport * bool))) : bool := held_after [] [] [] steps.
+
+(** ---- the daemon's glue (Model/PortDaemon.v): state files and tear-downs with a transient failure of the
+    f-th state-changing iptables call of the step (every RestoreAll / EnsureRule / DeleteRule call counts one;
+    SetupPortMapping: 0 = the batch, 1..n = the EnsureRules; CleanPortMapping: 0 = the chain-line batch,
+    1..n = the DeleteRules, n+1 = the final batch) *)
+Inductive dstep :=
+| DSetup (cid : str) (ps : list port) (f : option nat)
+| DClean (cid : str) (f : option nat).
+
+Definition d_model_step (tbl : name_tbl) (s : dstep) (st : dstate) : dstate * bool :=
+  match s with
+  | DSetup cid ps f => d_setup (cname_of tbl) cid ps f st
+  | DClean cid f => d_clean (cname_of tbl) cid f st
+  end.
+
+(** files are compared as a set of (cid, ports) with ports compared by (host port, container port, protocol,
+    host ip, pod name, pod ip) in order *)
+Definition port_eqb (a b : port) : bool :=
+  (p_host a =? p_host b) && (p_cont a =? p_cont b) && str_eqb (p_proto a) (p_proto b) &&
+  str_eqb (p_hostip a) (p_hostip b) && str_eqb (p_pod a) (p_pod b) && str_eqb (p_podip a) (p_podip b).
+Definition ports_eqb (a b : list port) : bool := list_eqb port_eqb a b.
+Definition files_sub (a b : list (str * list port)) : bool :=
+  forallb (fun e => match d_lookup (fst e) b with Some ps => ports_eqb (snd e) ps | None => false end) a.
+Definition files_eqb (a b : list (str * list port)) : bool := files_sub a b && files_sub b a.
+Definition dstate_eqb (a b : dstate) : bool :=
+  table_eqb (d_table a) (d_table b) && files_eqb (d_files a) (d_files b).
+
+(** every step: the model, started from the state observed before the step, returns the same
+    error/no-error and the same state (table as a finite map, files as a set) as the implementation *)
+Fixpoint chk_daemon_from (tbl : name_tbl) (st : dstate) (steps : list (dstep * bool * dstate)) (i : N) : option N :=
+  match steps with
+  | [] => None
+  | (s, err, obs) :: r =>
+      let '(st', ok) := d_model_step tbl s st in
+      if Bool.eqb ok (negb err) && dstate_eqb st' obs then chk_daemon_from tbl obs r (i + 1) else Some i
+  end.
+Definition chk_daemon (tbl : name_tbl) (prior : dstate) (steps : list (dstep * bool * dstate)) : bool :=
+  match chk_daemon_from tbl prior steps 0 with None => true | Some _ => false end.
+
+(** monitors on the implementation's own states.
+    teardown_success_is_complete: a tear-down that reported success left no state file of [cid] (unless the
+    file held no port at all: such a file is left alone), and for the ports the file held before neither
+    the port's chain nor any rule jumping to it *)
+Definition mon_teardown_ok (tbl : name_tbl) (cid : str) (before after : dstate) (err : bool) : bool :=
+  err ||
+  match d_lookup cid (d_files before) with
+  | None | Some [] => true
+  | Some ps =>
+      match d_lookup cid (d_files after) with None => true | Some _ => false end &&
+      forallb (fun p => negb (has_chain (cname_of tbl p) (d_table after)) &&
+                        negb (referenced (cname_of tbl p) (d_table after))) ps
+  end.
+(** failed_teardown_keeps_state_file: a tear-down that reported an error left the state files as they were *)
+Definition mon_teardown_failed_keeps_file (cid : str) (before after : dstate) (err : bool) : bool :=
+  negb err || files_eqb (d_files before) (d_files after).
